@@ -1,7 +1,7 @@
 """program generators for vyukov_hash_map (C10, C11)"""
 MODES = ['ll', 'ls', 'sl', 'ss', 'mp']
 RECL_QUICK = [('HPs<6>', '_hp'), ('EBR', '_ebr')]
-RECL_ALL = RECL_QUICK + [('HEs<6>', '_he'), ('NEBR', '_nebr'), ('DEBRA', '_debra'), ('QSBR', '_qsbr'), ('STAMP', '_stamp'), ('LFRC', '_lfrc')]
+RECL_ALL = RECL_QUICK + [('HEs<6>', '_he'), ('NEBR', '_nebr'), ('DEBRA', '_debra'), ('QSBR', '_qsbr'), ('STAMP', '_stamp')]   # LFRC cannot hold vyukov_hash_map blocks (not default constructible through its free list)
 def harnesses(tier):
     return [('vhm', ('XV_RECL=%s' % r,), False, sfx) for r, sfx in (RECL_ALL if tier == 'thorough' else RECL_QUICK)]
 
